@@ -143,6 +143,8 @@ theorem compile_raw (s : Bytes) (h : validUTF8 s = true) : compile (rawLiteral s
   rw [parseStringLiteral_escRaw] at this
   exact this
 
+example : compile (rawLiteral [0x27]) = .ok (.lit (.str [0x27])) := compile_raw _ (by decide)
+
 /-- C16 (raw string): `'…'` with `'` and `\` escaped evaluates to `s`, whatever the document -/
 theorem raw_roundtrip (s : Bytes) (d : Val) (h : validUTF8 s = true) : search (rawLiteral s) d = .ok (.str s) := by
   rw [search_single (rawLiteral s) _ _ d (lex_raw s h) (fun f => prim_string f (rawLiteral s)),
@@ -151,6 +153,63 @@ theorem raw_roundtrip (s : Bytes) (d : Val) (h : validUTF8 s = true) : search (r
 
 example : search (rawLiteral [0x27, 0x5C, 0xC3, 0xA9]) .null = .ok (.str [0x27, 0x5C, 0xC3, 0xA9]) :=
   raw_roundtrip _ _ (by decide)
+
+/-! ### untouched escapes, end to end -/
+
+theorem Verbatim.suffix : ∀ (a : Bytes) {b : Bytes}, Verbatim (a ++ b) → Verbatim b
+  | [], _, h => h
+  | _ :: a, _, h => Verbatim.suffix a h.tail
+
+theorem body_verbatim : ∀ (n : Nat) (cs : List Nat), cs.length ≤ n → Scalars cs → Verbatim (encodeAll cs) →
+    Body 0x27 (encodeAll cs) := by
+  intro n
+  induction n with
+  | zero =>
+    intro cs hn _ _
+    have : cs = [] := List.eq_nil_of_length_eq_zero (by omega)
+    subst this; exact Body.nil
+  | succ n ih =>
+    intro cs hn hs hv
+    match cs, hn, hs, hv with
+    | [], _, _, _ => exact Body.nil
+    | c :: cs, hn, hs, hv =>
+      rw [encodeAll_cons] at hv ⊢
+      have hsuf : Verbatim (encodeAll cs) := Verbatim.suffix _ hv
+      simp only [List.length_cons] at hn
+      by_cases h1 : c = 0x5C
+      · subst h1
+        rw [encodeRune_ascii 0x5C (by omega)] at hv ⊢
+        obtain ⟨x, t', hx, _, _⟩ := hv.2.1 rfl
+        match cs, hn, hs, hsuf, hx with
+        | [], _, _, _, hx => simp [encodeAll] at hx
+        | c' :: cs', hn, hs, hsuf, _ =>
+          rw [encodeAll_cons] at hsuf ⊢
+          simp only [List.length_cons] at hn
+          exact Body.esc c' _ hs.tail.head (ih cs' (by omega) hs.tail.tail (Verbatim.suffix _ hsuf))
+      · by_cases h2 : c = 0x27
+        · subst h2
+          rw [encodeRune_ascii 0x27 (by omega)] at hv
+          exact absurd rfl hv.1
+        · exact Body.plain c _ hs.head h2 h1 (ih cs (by omega) hs.tail hsuf)
+
+/-- C16 (escapes the grammar leaves untouched, end to end): a raw string whose body has no quote and only
+    backslashes followed by characters other than `'` and `\` evaluates to that body, backslashes included -/
+theorem raw_verbatim_search (b : Bytes) (d : Val) (hu : validUTF8 b = true) (h : Verbatim b) :
+    search ([0x27] ++ b ++ [0x27]) d = .ok (.str b) := by
+  obtain ⟨cs, hs, rfl⟩ := (validUTF8_iff b).1 hu
+  have hl : lexAll ([0x27] ++ encodeAll cs ++ [0x27])
+      = ([⟨.stringLiteral, [0x27] ++ encodeAll cs ++ [0x27]⟩, ⟨.end, []⟩], none) :=
+    lexAll_single 0x27 _ (by omega) (by decide) _ (lexToken_raw (body_verbatim _ cs (Nat.le_refl _) hs h))
+  rw [search_single _ _ _ d hl (fun f => prim_string f _), raw_verbatim _ h]
+  rfl
+
+/-- `'a\nb'` is the four bytes `a`, `\`, `n`, `b` -/
+example : search [0x27, 0x61, 0x5C, 0x6E, 0x62, 0x27] .null = .ok (.str [0x61, 0x5C, 0x6E, 0x62]) := by
+  refine raw_verbatim_search [0x61, 0x5C, 0x6E, 0x62] .null (by decide) ?_
+  refine ⟨by decide, fun h => absurd h (by decide), ?_⟩
+  refine ⟨by decide, fun _ => ⟨0x6E, [0x62], rfl, by decide, by decide⟩, ?_⟩
+  refine ⟨by decide, fun h => absurd h (by decide), ?_⟩
+  exact ⟨by decide, fun h => absurd h (by decide), trivial⟩
 
 /-! ## 5. quoted identifiers -/
 
@@ -277,6 +336,10 @@ theorem body_quoted_valid (s : Bytes) (h : validUTF8 s = true) : Body 0x22 (escQ
 theorem lex_quoted (s : Bytes) (h : validUTF8 s = true) :
     lexAll (quoted s) = ([⟨.quotedIdentifier, quoted s⟩, ⟨.end, []⟩], none) :=
   lexAll_single 0x22 _ (by omega) (by decide) _ (lexToken_quoted (body_quoted_valid s h))
+
+example : lexAll (quoted [0x22, 0x0A, 0xC3, 0xA9]) =
+    ([⟨.quotedIdentifier, [0x22, 0x5C, 0x22, 0x5C, 0x75, 0x30, 0x30, 0x30, 0x61, 0xC3, 0xA9, 0x22]⟩, ⟨.end, []⟩], none) :=
+  lex_quoted _ (by decide)
 
 theorem compile_quoted (s : Bytes) (h : validUTF8 s = true) : compile (quoted s) = .ok (.field s) :=
   parse_single (quoted s) _ _ (lex_quoted s h) (fun f => prim_quoted f _ _ (parseQuotedIdentifier_escQ s))
@@ -453,6 +516,10 @@ theorem lex_json (s : Bytes) (h : validUTF8 s = true) :
     lexAll (jsonLiteral s) = ([⟨.jsonLiteral, jsonLiteral s⟩, ⟨.end, []⟩], none) :=
   lexAll_single 0x60 _ (by omega) (by decide) _ (lexToken_json (body_jsonText s h))
 
+example : lexAll (jsonLiteral [0x5C, 0x60]) =
+    ([⟨.jsonLiteral, [0x60, 0x22, 0x5C, 0x5C, 0x5C, 0x60, 0x22, 0x60]⟩, ⟨.end, []⟩], none) :=
+  lex_json _ (by decide)
+
 theorem compile_json_str (s : Bytes) (h : validUTF8 s = true) : compile (jsonLiteral s) = .ok (.lit (.str s)) :=
   parse_single (jsonLiteral s) _ _ (lex_json s h) (fun f => prim_json f _ _ (parseJSONLiteral_jsonLiteral s h))
 
@@ -468,5 +535,313 @@ theorem json_str_roundtrip (s : Bytes) (d : Val) (h : validUTF8 s = true) :
 example : search (jsonLiteral [0x5C, 0x60, 0x60, 0x5C, 0x22, 0x0A, 0xC3, 0xA9]) .null
     = .ok (.str [0x5C, 0x60, 0x60, 0x5C, 0x22, 0x0A, 0xC3, 0xA9]) :=
   json_str_roundtrip _ _ (by decide)
+
+/-! ## 7. arbitrary JSON values between backticks; numbers keep their spelling -/
+
+/-- texts that can be written between backticks: valid UTF-8 in which a backslash always has a partner rune, and
+    that partner is not a backtick (always the case for a JSON text: backslashes occur only in string escapes, and
+    `\` followed by a backtick is not one) -/
+inductive JBody : Bytes → Prop
+  | nil : JBody []
+  | plain (c : Nat) (w : Bytes) : isScalar c = true → c ≠ 0x5C → JBody w → JBody (encodeRune c ++ w)
+  | esc (c : Nat) (w : Bytes) : isScalar c = true → c ≠ 0x60 → JBody w → JBody (0x5C :: (encodeRune c ++ w))
+
+theorem btEscape_rune (c : Nat) (h : c ≠ 0x60) : btEscape (encodeRune c) = encodeRune c := by
+  by_cases hc : c < 0x80
+  · rw [encodeRune_ascii c hc]; simp [btEscape, btEscByte, h]
+  · exact flatMap_id_of _ (fun b hb => btEscByte_id b (by have := encodeRune_bytes_ge c (by omega) b hb; omega))
+
+theorem body_btEscape {t : Bytes} (h : JBody t) : Body 0x60 (btEscape t) := by
+  induction h with
+  | nil => exact Body.nil
+  | plain c w h1 h2 _ ih =>
+    rw [btEscape_append]
+    by_cases h3 : c = 0x60
+    · subst h3
+      have : btEscape (encodeRune 0x60) = [0x5C, 0x60] := by decide
+      rw [this]; exact Body.esc1 0x60 (by omega) ih
+    · rw [btEscape_rune c h3]; exact Body.plain c _ h1 h3 h2 ih
+  | esc c w h1 h2 _ ih =>
+    have : btEscape (0x5C :: (encodeRune c ++ w)) = 0x5C :: (encodeRune c ++ btEscape w) := by
+      rw [btEscape_cons, btEscape_append, btEscape_rune c h2, btEscByte_id 0x5C (by omega)]; rfl
+    rw [this]; exact Body.esc c _ h1 ih
+
+theorem JBody.ascii : ∀ (t : Bytes), (∀ b ∈ t, b < 0x80 ∧ b ≠ 0x5C) → JBody t
+  | [], _ => JBody.nil
+  | b :: t, h => by
+    have hb := h b (List.mem_cons_self)
+    have := JBody.plain b t (isScalar_ascii b hb.1) hb.2 (JBody.ascii t (fun x hx => h x (List.mem_cons_of_mem _ hx)))
+    rwa [encodeRune_ascii b hb.1] at this
+
+/-- a JSON text `t` written between backticks, backticks escaped -/
+def jsonLit (t : Bytes) : Bytes := [0x60] ++ btEscape t ++ [0x60]
+
+theorem lex_jsonLit (t : Bytes) (h : JBody t) :
+    lexAll (jsonLit t) = ([⟨.jsonLiteral, jsonLit t⟩, ⟨.end, []⟩], none) :=
+  lexAll_single 0x60 _ (by omega) (by decide) _ (lexToken_json (body_btEscape h))
+
+theorem parseJSONLiteral_jsonLit (t : Bytes) (v : Val) (hd : Json.decode t = some v) :
+    parseJSONLiteral (jsonLit t) = some v := by
+  unfold parseJSONLiteral
+  rw [jsonLit, stripDelims_wrap, unescapeBackticks_btEscape]
+  cases t with
+  | nil => exact absurd hd (by rw [show Json.decode [] = none from rfl]; simp)
+  | cons b t => simpa using hd
+
+/-- C16 (JSON literal, general form): whatever Go's decoder (with `UseNumber`) makes of the JSON text `t`, the
+    expression `` `t` `` (backticks in `t` escaped) evaluates to exactly that value -/
+theorem json_literal_roundtrip (t : Bytes) (v d : Val) (hb : JBody t) (hd : Json.decode t = some v) :
+    search (jsonLit t) d = .ok v := by
+  rw [search_single (jsonLit t) _ _ d (lex_jsonLit t hb)
+    (fun f => prim_json f _ _ (parseJSONLiteral_jsonLit t v hd))]
+  rfl
+
+theorem NumChar.ascii {b : Nat} (h : NumChar b) : b < 0x80 ∧ b ≠ 0x5C := by
+  unfold NumChar at h; omega
+
+theorem numChars_of_valid (t : Bytes) (h : Json.isValidNumber t = true) : ∀ b ∈ t, NumChar b := by
+  unfold Json.isValidNumber at h
+  split at h
+  · rename_i n hn
+    obtain ⟨h1, h2, _⟩ := parseNumberTok_spec _ _ _ hn
+    have : t = n := by simpa using h1
+    subst this; exact h2
+  · cases h
+
+/-- C16 (numbers keep full precision): a valid JSON number between backticks is the `json.Number` with that very
+    spelling -/
+theorem json_number_verbatim (t : Bytes) (h : Json.isValidNumber t = true) :
+    parseJSONLiteral ([0x60] ++ t ++ [0x60]) = some (.num (.jnum t)) :=
+  parseJSONLiteral_number t h
+
+theorem btEscape_number (t : Bytes) (h : Json.isValidNumber t = true) : btEscape t = t :=
+  flatMap_id_of _ (fun b hb => btEscByte_id b (by have := numChars_of_valid t h b hb; unfold NumChar at this; omega))
+
+theorem json_number_roundtrip (t : Bytes) (d : Val) (h : Json.isValidNumber t = true) :
+    search ([0x60] ++ t ++ [0x60]) d = .ok (.num (.jnum t)) := by
+  have := json_literal_roundtrip t _ d (JBody.ascii t (fun b hb => NumChar.ascii (numChars_of_valid t h b hb)))
+    (decode_number t h)
+  rwa [jsonLit, btEscape_number t h] at this
+
+example : parseJSONLiteral [0x60, 0x31, 0x2E, 0x30, 0x30, 0x60] = some (.num (.jnum [0x31, 0x2E, 0x30, 0x30])) :=
+  json_number_verbatim [0x31, 0x2E, 0x30, 0x30] (by decide)
+
+/-- `1.501234567890123456789e+300000`: nothing is rounded or normalised -/
+def bigNum : Bytes := [0x31, 0x2E, 0x35, 0x30, 0x31, 0x32, 0x33, 0x34, 0x35, 0x36, 0x37, 0x38, 0x39, 0x30, 0x31,
+  0x32, 0x33, 0x34, 0x35, 0x36, 0x37, 0x38, 0x39, 0x65, 0x2B, 0x33, 0x30, 0x30, 0x30, 0x30, 0x30]
+
+example : search ([0x60] ++ bigNum ++ [0x60]) .null = .ok (.num (.jnum bigNum)) :=
+  json_number_roundtrip bigNum _ (by decide)
+
+/-- nested value: `` `{"a`":[1.0,null,{"b":true}],"c":"x"}` `` with the backtick in the key escaped -/
+example : search (jsonLit [0x7B, 0x22, 0x61, 0x60, 0x22, 0x3A, 0x5B, 0x31, 0x2E, 0x30, 0x2C, 0x6E, 0x75, 0x6C, 0x6C,
+      0x2C, 0x7B, 0x22, 0x62, 0x22, 0x3A, 0x74, 0x72, 0x75, 0x65, 0x7D, 0x5D, 0x2C, 0x22, 0x63, 0x22, 0x3A, 0x22,
+      0x78, 0x22, 0x7D]) .null
+    = .ok (.obj [([0x61, 0x60], .arr .plain [.num (.jnum [0x31, 0x2E, 0x30]), .null, .obj [([0x62], .bool true)]]),
+                 ([0x63], .str [0x78])]) :=
+  json_literal_roundtrip _ _ _ (JBody.ascii _ (by decide)) (by rfl)
+
+/-! ## 8. arrays of scalar JSON values -/
+
+/-- a scalar JSON value, specification side -/
+inductive Leaf where
+  | null | bool (b : Bool) | num (t : Bytes) | str (s : Bytes)
+
+/-- numbers are valid JSON number tokens, strings valid UTF-8 -/
+def Leaf.ok : Leaf → Prop
+  | .num t => Json.isValidNumber t = true
+  | .str s => validUTF8 s = true
+  | _ => True
+
+def Leaf.text : Leaf → Bytes
+  | .null => [0x6E, 0x75, 0x6C, 0x6C]
+  | .bool true => [0x74, 0x72, 0x75, 0x65]
+  | .bool false => [0x66, 0x61, 0x6C, 0x73, 0x65]
+  | .num t => t
+  | .str s => jsonText s
+
+def Leaf.val : Leaf → Val
+  | .null => .null
+  | .bool b => .bool b
+  | .num t => .num (.jnum t)
+  | .str s => .str s
+
+/-- comma-separated, no white space -/
+def renderElems : List Leaf → Bytes
+  | [] => []
+  | [l] => l.text
+  | l :: l' :: ls => l.text ++ 0x2C :: renderElems (l' :: ls)
+
+def renderArr (ls : List Leaf) : Bytes := 0x5B :: (renderElems ls ++ [0x5D])
+
+theorem Leaf.parse (l : Leaf) (hl : l.ok) (f d sep : Nat) (rest : Bytes) (hsep : sep = 0x2C ∨ sep = 0x5D) :
+    Json.parseValue (f + 1) d (l.text ++ sep :: rest) = some (l.val, sep :: rest) := by
+  cases l with
+  | null => exact parseValue_null f d _
+  | bool b => cases b; exact parseValue_false f d _; exact parseValue_true f d _
+  | num t =>
+    refine parseValue_number_ext f d t _ hl (Stop.cons ?_)
+    unfold NumChar; omega
+  | str s =>
+    obtain ⟨cs, hs, rfl⟩ := (validUTF8_iff s).1 hl
+    show Json.parseValue (f + 1) d (([0x22] ++ escQ (encodeAll cs) ++ [0x22]) ++ sep :: rest) = _
+    have e : ([0x22] ++ escQ (encodeAll cs) ++ [0x22]) ++ sep :: rest
+        = 0x22 :: (escQ (encodeAll cs) ++ 0x22 :: (sep :: rest)) := by simp
+    rw [e, parseValue_string, psb_escQ cs hs _ [] (sep :: rest) (by simp; omega)]
+    rfl
+
+theorem Leaf.head (l : Leaf) (hl : l.ok) : ∃ b t, l.text = b :: t ∧ Json.isWs b = false ∧ b ≠ 0x5D := by
+  cases l with
+  | null => exact ⟨_, _, rfl, by decide, by decide⟩
+  | bool b => cases b <;> exact ⟨_, _, rfl, by decide, by decide⟩
+  | num t =>
+    have hl' : Json.isValidNumber t = true := hl
+    unfold Json.isValidNumber at hl'
+    split at hl'
+    · rename_i n hn
+      obtain ⟨_, _, b, t', rfl, hb⟩ := parseNumberTok_spec _ _ _ hn
+      refine ⟨b, t', rfl, ?_, by omega⟩
+      simp [Json.isWs]; omega
+    · cases hl'
+  | str s => exact ⟨0x22, escQ s ++ [0x22], by simp [Leaf.text, jsonText], by decide, by decide⟩
+
+theorem renderElems_cons2 (l l' : Leaf) (ls : List Leaf) :
+    renderElems (l :: l' :: ls) = l.text ++ 0x2C :: renderElems (l' :: ls) := rfl
+
+theorem renderElems_length : ∀ ls : List Leaf, (∀ l ∈ ls, l.ok) → ls.length ≤ (renderElems ls).length
+  | [], _ => by simp
+  | [l], h => by
+    obtain ⟨b, t, e, _⟩ := l.head (h l (List.mem_cons_self))
+    simp [renderElems, e]
+  | l :: l' :: ls, h => by
+    have ih := renderElems_length (l' :: ls) (fun x hx => h x (List.mem_cons_of_mem _ hx))
+    rw [renderElems_cons2]
+    simp only [List.length_append, List.length_cons] at ih ⊢
+    omega
+
+theorem parseElems_render : ∀ (ls : List Leaf), ls ≠ [] → (∀ l ∈ ls, l.ok) →
+    ∀ (f d : Nat) (accv : List Val) (rest : Bytes), ls.length + 1 ≤ f →
+      Json.parseElems f d (renderElems ls ++ 0x5D :: rest) accv = some (accv ++ ls.map Leaf.val, rest)
+  | [], h, _, _, _, _, _, _ => absurd rfl h
+  | [l], _, hok, f, d, accv, rest, hf => by
+    match f, hf with
+    | f + 2, _ =>
+      exact parseElems_last (f + 1) d _ accv _ rest
+        (l.parse (hok l (List.mem_cons_self)) f d 0x5D rest (Or.inr rfl))
+  | l :: l' :: ls, _, hok, f, d, accv, rest, hf => by
+    simp only [List.length_cons] at hf
+    match f, hf with
+    | f + 2, hf =>
+      rw [renderElems_cons2, List.append_assoc, List.cons_append,
+        parseElems_more (f + 1) d _ accv _ _ (l.parse (hok l (List.mem_cons_self)) f d 0x2C _ (Or.inl rfl)),
+        parseElems_render (l' :: ls) (by simp) (fun x hx => hok x (List.mem_cons_of_mem _ hx)) (f + 1) d _ rest
+          (by simp only [List.length_cons]; omega)]
+      simp
+
+/-- Go's decoder reads the rendering of an array of scalars back as that array, numbers verbatim -/
+theorem decode_renderArr (ls : List Leaf) (hok : ∀ l ∈ ls, l.ok) :
+    Json.decode (renderArr ls) = some (.arr .plain (ls.map Leaf.val)) := by
+  cases ls with
+  | nil => rfl
+  | cons l ls =>
+    have hlen := renderElems_length (l :: ls) hok
+    obtain ⟨b, t, e, hw, hb⟩ : ∃ b t, renderElems (l :: ls) = b :: t ∧ Json.isWs b = false ∧ b ≠ 0x5D := by
+      obtain ⟨b, t, e, hw, hb⟩ := l.head (hok l (List.mem_cons_self))
+      cases ls with
+      | nil => exact ⟨b, t, e, hw, hb⟩
+      | cons l' ls => exact ⟨b, t ++ 0x2C :: renderElems (l' :: ls), by rw [renderElems_cons2, e]; rfl, hw, hb⟩
+    unfold Json.decode
+    obtain ⟨k, hk⟩ : ∃ k, 2 * (renderArr (l :: ls)).length + 2 = k + 1 := ⟨_, rfl⟩
+    have hk' : (l :: ls).length + 1 ≤ k := by
+      simp only [renderArr, List.length_cons, List.length_append, List.length_nil] at hk hlen ⊢; omega
+    rw [hk]
+    have e2 : renderArr (l :: ls) = 0x5B :: b :: (t ++ [0x5D]) := by simp [renderArr, e]
+    have e3 : b :: (t ++ [0x5D]) = renderElems (l :: ls) ++ 0x5D :: [] := by simp [e]
+    rw [e2, parseValue_arr k 0 b _ (by decide) hw hb, e3,
+      parseElems_render (l :: ls) (by simp) hok k 1 [] [] hk']
+    simp [Json.skipWs]
+
+theorem JBody.append {a b : Bytes} (ha : JBody a) (hb : JBody b) : JBody (a ++ b) := by
+  induction ha with
+  | nil => exact hb
+  | plain c w h1 h2 _ ih => rw [List.append_assoc]; exact JBody.plain c _ h1 h2 ih
+  | esc c w h1 h2 _ ih => rw [List.cons_append, List.append_assoc]; exact JBody.esc c _ h1 h2 ih
+
+theorem JBody.plain1 (c : Nat) (hc : c < 0x80) (h2 : c ≠ 0x5C) {w : Bytes} (hw : JBody w) : JBody (c :: w) := by
+  have := JBody.plain c w (isScalar_ascii c hc) h2 hw
+  rwa [encodeRune_ascii c hc] at this
+
+theorem JBody.esc1 (c : Nat) (hc : c < 0x80) (h2 : c ≠ 0x60) {w : Bytes} (hw : JBody w) :
+    JBody (0x5C :: c :: w) := by
+  have := JBody.esc c w (isScalar_ascii c hc) h2 hw
+  rwa [encodeRune_ascii c hc] at this
+
+theorem jbody_escQ : ∀ cs : List Nat, Scalars cs → JBody (escQ (encodeAll cs))
+  | [], _ => JBody.nil
+  | c :: cs, h => by
+    have ih := jbody_escQ cs h.tail
+    rw [encodeAll_cons, escQ_append]
+    by_cases hc : c < 0x80
+    · rw [encodeRune_ascii c hc]
+      have e : escQ [c] = qEscByte c := by simp [escQ]
+      rw [e]; unfold qEscByte
+      by_cases h1 : c = 0x22
+      · subst h1; exact JBody.esc1 0x22 (by omega) (by omega) ih
+      · by_cases h2 : c = 0x5C
+        · subst h2; exact JBody.esc1 0x5C (by omega) (by omega) ih
+        · by_cases h3 : c < 0x20
+          · simp only [h1, h2, h3, if_false, if_true]
+            have a1 := hexLower_lt (c / 16) (by omega)
+            have a2 := hexLower_lt (c % 16) (by omega)
+            refine JBody.esc1 0x75 (by omega) (by omega) ?_
+            refine JBody.plain1 0x30 (by omega) (by omega) ?_
+            refine JBody.plain1 0x30 (by omega) (by omega) ?_
+            refine JBody.plain1 _ (by omega) (by omega) ?_
+            exact JBody.plain1 _ (by omega) (by omega) ih
+          · simp only [h1, h2, h3, if_false]; exact JBody.plain1 c hc h2 ih
+    · have e : escQ (encodeRune c) = encodeRune c :=
+        flatMap_id_of _ (fun b hb => qEscByte_hi b (encodeRune_bytes_ge c (by omega) b hb))
+      rw [e]
+      exact JBody.plain c _ h.head (by omega) ih
+
+theorem Leaf.jbody (l : Leaf) (hl : l.ok) : JBody l.text := by
+  cases l with
+  | null => exact JBody.ascii _ (by decide)
+  | bool b => cases b <;> exact JBody.ascii _ (by decide)
+  | num t => exact JBody.ascii t (fun b hb => NumChar.ascii (numChars_of_valid t hl b hb))
+  | str s =>
+    obtain ⟨cs, hs, rfl⟩ := (validUTF8_iff s).1 hl
+    exact JBody.append (JBody.append (JBody.plain1 0x22 (by omega) (by omega) JBody.nil) (jbody_escQ cs hs))
+      (JBody.plain1 0x22 (by omega) (by omega) JBody.nil)
+
+theorem jbody_renderElems : ∀ ls : List Leaf, (∀ l ∈ ls, l.ok) → JBody (renderElems ls)
+  | [], _ => JBody.nil
+  | [l], h => (l.jbody (h l (List.mem_cons_self)))
+  | l :: l' :: ls, h => by
+    rw [renderElems_cons2]
+    exact JBody.append (l.jbody (h l (List.mem_cons_self)))
+      (JBody.plain1 0x2C (by omega) (by omega)
+        (jbody_renderElems (l' :: ls) (fun x hx => h x (List.mem_cons_of_mem _ hx))))
+
+/-- C16 (JSON literal, arrays): an array of scalars — strings with any content, numbers with any spelling —
+    written between backticks evaluates to the array of those values, numbers kept verbatim -/
+theorem json_array_roundtrip (ls : List Leaf) (d : Val) (hok : ∀ l ∈ ls, l.ok) :
+    search (jsonLit (renderArr ls)) d = .ok (.arr .plain (ls.map Leaf.val)) :=
+  json_literal_roundtrip _ _ d
+    (JBody.plain1 0x5B (by omega) (by omega)
+      (JBody.append (jbody_renderElems ls hok) (JBody.plain1 0x5D (by omega) (by omega) JBody.nil)))
+    (decode_renderArr ls hok)
+
+/-- `` `[1.10,"a\`\\",null,true]` `` -/
+example : search (jsonLit (renderArr [.num [0x31, 0x2E, 0x31, 0x30], .str [0x61, 0x60, 0x5C], .null, .bool true])) .null
+    = .ok (.arr .plain [.num (.jnum [0x31, 0x2E, 0x31, 0x30]), .str [0x61, 0x60, 0x5C], .null, .bool true]) :=
+  json_array_roundtrip _ _ (by
+    intro l hl
+    simp only [List.mem_cons, List.not_mem_nil, or_false] at hl
+    rcases hl with rfl | rfl | rfl | rfl
+    · show Json.isValidNumber _ = true; decide
+    · show validUTF8 _ = true; decide
+    · trivial
+    · trivial)
 
 end Jmes.C16
